@@ -178,13 +178,8 @@ def decode(meter: str, form: str, b: bytes) -> dict:
     import importlib
     mod = importlib.import_module(f"han.{meter}")
     fn = mod.decode_frame_content if form == "frame" else mod.decode_notification_body
-    try:
-        d = fn(b)
-        if not isinstance(d, dict):
-            return {"raised": f"returned {type(d).__name__}", "entries": []}
-        return {"raised": "", "entries": entries(d, PLACES[meter])}
-    except Exception as ex:  # noqa: BLE001
-        return {"raised": type(ex).__name__, "entries": []}
+    from .drv_p1dec import call
+    return call(fn, b, places=PLACES[meter])
 
 
 def record(m: dict, b: bytes, origin: str, with_other=True) -> dict:
@@ -259,8 +254,8 @@ def randomise(rng: random.Random, m: dict) -> dict:
 
 
 def _job(args):
-    import logging
-    logging.disable(logging.CRITICAL)
+    from .core import set_logging
+    set_logging(args)
     seed, base, n = args
     rng = random.Random(seed)
     out = []
@@ -320,7 +315,9 @@ def run_meter(chk: Check, meter: str) -> int:
     gen = gen_msgs(chk, meter)
     if quick and len(gen) > 700:
         gen = chk.rng.sample(gen, 700)
-    for g in gen:
+    from .core import set_logging
+    for k, g in enumerate(gen):
+        set_logging(k)
         traces.append(record(g["msg"], bytes(g["bytes"]), "tlc:Gen_Cosem"))
     chk.cov["behaviours_replayed"] = len(gen)
     chk.cov["captured_messages_reencoded"] = len(caps)
@@ -395,6 +392,26 @@ def run_c10(chk: Check) -> int:
         if m["apdu"]["kind"] != "null":
             m["apdu"]["dt"] = rand_dt(rng)
         traces.append(record(m, encode(m), "gen:random", with_other=False))
+    # the same instant written with different deviations, decoded one after the other (UTC vs local time, the hour that exists twice
+    # at the end of daylight saving): every one must come back with ITS OWN civil fields and offset
+    import datetime as _dt
+    for _ in range(150 if quick else 3000):
+        m = copy.deepcopy(rng.choice(base))
+        y, mo, d = rng.randint(2000, 2090), rng.randint(1, 12), rng.randint(2, 27)
+        local = _dt.datetime(y, mo, d, rng.randint(0, 23), rng.randint(0, 59), rng.randint(0, 59))
+        hs = rng.choice([0xFF, 0, rng.randint(0, 99)])
+        dev1 = rng.choice([0, -60, -120, 60, 300, -720, 720, -345])
+        for dev2 in rng.sample([0, -60, -120, 60, 300, -720, 720, -345, -90], 3) + [dev1]:
+            loc = local + _dt.timedelta(minutes=dev1 - dev2)          # UTC = local + deviation
+            x = {"y": loc.year, "mo": loc.month, "d": loc.day, "dow": 0xFF, "h": loc.hour, "mi": loc.minute, "s": loc.second, "hs": hs,
+                 "dev": dev2 % 65536, "st": rng.choice([0, 0x80, 0xFF])}
+            m2 = copy.deepcopy(m)
+            for e in m2["elems"]:
+                if e["t"] == "dt":
+                    e["dt"] = dict(x)
+            if m2["apdu"]["kind"] != "null":
+                m2["apdu"]["dt"] = dict(x)
+            traces.append(record(m2, encode(m2), "gen:same-instant", with_other=False))
     return finish_cosem(chk, traces, ("C10",), "datetime")
 
 
